@@ -85,6 +85,11 @@ func runC09(r *simrt.Run) {
 		w.SetEpochDuration(time.Duration(300*(2+t.Choose(3))) * time.Second)
 		w.ShortRewardKnobs(int64(10*t.Choose(6)), uint64(1+t.Choose(10)))
 	}
+	if t.Bool() {
+		// a harness key administers bridge and liquidity: their gated methods run for real
+		w.BridgeAdmin(w.Users[t.Choose(3)].Address, uint64(1+t.Choose(8)), 1+t.Choose(5))
+		r.Probe("bridge-admin-installed")
+	}
 	p := w.AddNode("P", nomsim.MockPillars(), false)
 	f := w.AddNode("F", nil, false)
 	wl := nomsim.NewWorkload(w, mode)
@@ -148,6 +153,7 @@ func runC09(r *simrt.Run) {
 				}
 				key := callKey(send)
 				methods[key]++
+				r.Probe("m:" + key)
 				calls++
 				var ex *vm.ContractExecution
 				var gerr error
